@@ -26,6 +26,15 @@ ASSUMPTIONS = ["an exception escaping main() (in-toto-match-products) is the int
                "front ends are run in-process; the thorough tier also runs the installed console scripts in subprocesses"]
 
 
+def draw(rng, options, base, j):
+    """A variant of a family: cycled through the distinct ones when the family is run with a case number (every variant
+    occurs in every run, whatever the seed), drawn otherwise."""
+    if base is None:
+        return rng.choice(options)
+    uniq = list(dict.fromkeys(options))
+    return uniq[(base + j) % len(uniq)]
+
+
 def model_status(tool, outcome):
     return core.driver().call({"op": "cli_status", "tool": tool, "outcome": outcome})["ok"]
 
@@ -91,6 +100,8 @@ def record(res, tool, argv_desc, status, outcome, expect_file=None, extra=None, 
         case.update(extra)
     res.case(case, True, agreed)
     res.count("tool_" + tool); res.count("status_%s" % st)
+    if isinstance(argv_desc, dict) and argv_desc.get("variant"):
+        res.count("variant_%s_%s" % (tool, argv_desc["variant"]))
     if not agreed:
         res.fail("disagree", {"op": "cli_status", "tool": tool, "args": argv_desc, "outcome": outcome},
                  {"op": "cli_status", "impl": status, "model": m})
@@ -121,7 +132,7 @@ def priv_path(k):
 # ------------------------------------------------------------------ verify
 
 
-def verify_cases(rng, res, n):
+def verify_cases(rng, res, n, base=None):
     fams = ["c02", "c05", "c06", "c07", "c08"]
     for j in range(n):
         fam = fams[j % len(fams)]
@@ -166,8 +177,8 @@ def verify_cases(rng, res, n):
                 else:
                     form = "verification-keys"
                     argv += ["--verification-keys"] + keyfiles
-                variant = rng.choice(["plain"] * 6 + ["no_keys", "unknown_option", "missing_layout", "garbage_layout", "extra_unsigned_key", "layout_keys_more_than_types",
-                                      "mixed_forms_extra_unsigned", "mixed_forms_extra_unsigned", "mixed_forms_gpg_unsigned"])
+                variant = draw(rng, ["plain"] * 6 + ["no_keys", "unknown_option", "missing_layout", "garbage_layout", "extra_unsigned_key", "layout_keys_more_than_types",
+                                      "mixed_forms_extra_unsigned", "mixed_forms_extra_unsigned", "mixed_forms_gpg_unsigned"], base if (base is None or j % 2 == 0) else None, j // 2)
                 if variant.startswith("mixed_forms") and form != "verification-keys":
                     variant = "plain"
                 if variant == "mixed_forms_extra_unsigned" and not [k for k in W.pool() if k not in ch.owners and k.kind == "rsa"]:
@@ -251,8 +262,8 @@ def gpg_verify_case(rng, res):
 # ------------------------------------------------------------------ run / record / mock
 
 
-def run_record_cases(rng, res, n):
-    for _ in range(n):
+def run_record_cases(rng, res, n, base=None):
+    for j in range(n):
         d = tempfile.mkdtemp(prefix="verif-c18-")
         cwd = os.getcwd()
         try:
@@ -261,11 +272,12 @@ def run_record_cases(rng, res, n):
             k = rng.choice(W.pool())
             rsa = [x for x in W.pool() if x.kind == "rsa"][0]
             dsse = rng.random() < 0.5
-            tool = rng.choice(["run", "run", "record", "mock"])
+            tool = draw(rng, ["run", "run", "record", "mock"], base, j)
+            vb = None if base is None else (base + j) // 3
             if tool == "run":
-                variant = rng.choice(["ok", "ok", "failing_command", "no_such_command", "missing_key", "bad_metadata_dir", "timeout",
+                variant = draw(rng, ["ok", "ok", "failing_command", "no_such_command", "missing_key", "bad_metadata_dir", "timeout",
                                       "no_command", "no_command_flag", "two_keys", "no_key", "legacy_key",
-                                      "empty_signing_key", "empty_key", "empty_gpg", "gpg_and_signing_key", "gpg_flag_and_signing_key"])
+                                      "empty_signing_key", "empty_key", "empty_gpg", "gpg_and_signing_key", "gpg_flag_and_signing_key"], vb, 0)
                 key = k
                 argv = ["-n", "st", "-m", ".", "-p", "."]
                 keyargs = ["--signing-key", priv_path(k)]
@@ -318,8 +330,8 @@ def run_record_cases(rng, res, n):
                 record(res, "run", {"variant": variant, "dsse": dsse, "key": key.kind}, st, outcome, expect_file=expect,
                        argv=argv + keyargs + cmd)
             elif tool == "record":
-                variant = rng.choice(["ok", "ok", "stop_without_start", "missing_key", "two_keys", "bad_subcommand",
-                                      "empty_signing_key", "empty_key", "empty_gpg", "gpg_and_signing_key"])
+                variant = draw(rng, ["ok", "ok", "stop_without_start", "missing_key", "two_keys", "bad_subcommand",
+                                      "empty_signing_key", "empty_key", "empty_gpg", "gpg_and_signing_key"], vb, 0)
                 keyargs = ["--signing-key", priv_path(k)]
                 if variant.startswith("empty_"):
                     keyargs = ["--" + variant[len("empty_"):].replace("_", "-"), ""]
@@ -346,7 +358,7 @@ def run_record_cases(rng, res, n):
                 out = {"ok": "success", "stop_without_start": "fail", "missing_key": "fail", "two_keys": "usage"}.get(variant, "usage")
                 record(res, "record_stop", {"variant": variant, "dsse": dsse, "key": k.kind}, st, out, expect_file=fin, argv=av)
             else:
-                variant = rng.choice(["ok", "ok", "no_such_command", "no_name"])
+                variant = draw(rng, ["ok", "ok", "no_such_command", "no_name"], vb, 0)
                 argv = ["-n", "mk"] + (["--use-dsse"] if dsse else []) + ["--", sys.executable, "-c", "print(1)"]
                 outcome = "success"
                 if variant == "no_such_command":
@@ -363,11 +375,11 @@ def run_record_cases(rng, res, n):
 # ------------------------------------------------------------------ sign / match-products
 
 
-def sign_match_cases(rng, res, n):
+def sign_match_cases(rng, res, n, base=None):
     from in_toto.models.layout import Layout
     from in_toto.models.link import Link
     from in_toto.models.metadata import Metablock, Envelope
-    for _ in range(n):
+    for j in range(n):
         d = tempfile.mkdtemp(prefix="verif-c18s-")
         cwd = os.getcwd()
         try:
@@ -377,12 +389,12 @@ def sign_match_cases(rng, res, n):
             lay = Layout(expires="2031-01-01T00:00:00Z")
             md = Envelope.from_signable(lay) if dsse else Metablock(signed=lay)
             md.dump("l.layout")
-            variant = rng.choice(["sign_verify_ok", "verify_wrong_key", "verify_unsigned", "verify_with_append", "both_key_kinds",
+            variant = draw(rng, ["sign_verify_ok", "verify_wrong_key", "verify_unsigned", "verify_with_append", "both_key_kinds",
                                   "missing_file", "sign_bad_key", "link_two_keys", "match_equal", "match_changed", "match_missing_link", "match_other_algorithm", "match_no_digest", "match_extra_file",
                                   "match_empty_name_changed", "match_empty_name_equal", "match_colon_path_changed", "match_colon_path_equal",
                                   "link_append", "link_one_key", "verify_gpg_no_id", "verify_with_output", "no_key_arg",
                                   "verify_with_empty_output", "verify_many", "verify_many", "verify_many", "link_verify_gpg_no_id",
-                                  "verify_both_key_kinds", "verify_both_key_kinds"])
+                                  "verify_both_key_kinds", "verify_both_key_kinds"], base, j)
             if variant in ("sign_verify_ok", "verify_wrong_key"):
                 _av = ["-f", "l.layout", "-k", priv_path(k)]
                 st, _o, _e = cli.run_main("in_toto_sign", _av)
@@ -561,11 +573,11 @@ def shard(seed, idx, n, tier):
         from harness.props import c01
         if idx == 1:
             c01.layout_keys_types_case(res, "C18")
-    verify_cases(rng, res, n)
+    verify_cases(rng, res, n, base=idx * n)
     if idx < 4:
         gpg_verify_case(rng, res)
-    run_record_cases(rng, res, n)
-    sign_match_cases(rng, res, n)
+    run_record_cases(rng, res, n, base=idx * n)
+    sign_match_cases(rng, res, n, base=idx * n)
     # the same families with the front end as a child process: the console-script wrapper of [project.scripts]
     # (`sys.exit(main())`) and `python -m in_toto.<tool>` - the exit status of a process is what C18 is about, and a
     # status that main() returns instead of exiting with, or an exception that escapes, only shows there
